@@ -746,6 +746,21 @@ class Interp:
             raise Unsupported('keyword argument(s) %s of %s are not modelled' % (sorted(unread), name), n)
         return out
 
+    def decorated_value(self, module, fn, owner):
+        """what the (user-defined) decorators of a def made of it: applied once per interpreter, as at import"""
+        dec = self.decorated.get(id(fn))
+        if dec is None:
+            if len(unknown_decorators(fn)) != len(fn.decorator_list):
+                raise Unsupported('user-defined decorator combined with @property/@classmethod/... on %s'
+                                  % fn.name, fn, module.relpath)
+            dec = FuncRef(module, fn, None, owner)
+            dec.raw = True
+            df = Frame(self, module, {}, owner, None)
+            for d_ in reversed(fn.decorator_list):
+                dec = df.apply(df.ev(d_), [dec], {}, d_)
+            self.decorated[id(fn)] = dec
+        return dec
+
     def call_function(self, module, fn, args, kwargs, self_obj=None, owner=None, name=None, closure=None,
                       preset=None, frame_self=None, raw=False):
         """inline a FunctionDef with evaluated args. Returns value or Raised."""
@@ -761,17 +776,7 @@ class Interp:
         if unknown_decorators(fn) and not raw:
             # a decorator replaces the function by whatever it returns: the package's own decorators are applied (once
             # per interpreter, as at import) and the result is what gets called
-            dec = self.decorated.get(id(fn))
-            if dec is None:
-                if len(unknown_decorators(fn)) != len(fn.decorator_list):
-                    raise Unsupported('user-defined decorator combined with @property/@classmethod/... on %s'
-                                      % fn.name, fn, module.relpath)
-                dec = FuncRef(module, fn, None, owner)
-                dec.raw = True
-                df = Frame(self, module, {}, owner, None)
-                for d_ in reversed(fn.decorator_list):
-                    dec = df.apply(df.ev(d_), [dec], {}, d_)
-                self.decorated[id(fn)] = dec
+            dec = self.decorated_value(module, fn, owner)
             df = Frame(self, module, {}, owner, None)
             try:
                 self.depth += 1
@@ -4520,11 +4525,37 @@ def _signature_of(I, fn, n=None):
             return [], ['self'], ['self']
         a, bound = got[1].args, True
     elif isinstance(fn, FuncRef):
-        if unknown_decorators(fn.fn) and not getattr(fn, 'raw', False):
-            # what inspect / __code__ see is the object the decorator returned, not this def
-            raise Unsupported('signature of %s, which carries a user-defined decorator' % fn.fn.name, n)
         a = fn.fn.args
         bound = fn.self_obj is not None and fn.closure is None
+        if unknown_decorators(fn.fn) and not getattr(fn, 'raw', False):
+            # what inspect / __code__ see is the object the decorators returned: the code object is the wrapper's;
+            # inspect.signature follows __wrapped__ (set by functools.wraps) back to this def
+            dec = I.decorated_value(fn.module, fn.fn, fn.owner)
+            if not (isinstance(dec, FuncRef) and not isinstance(dec.fn, ast.Lambda)):
+                raise Unsupported('signature of %s, whose decorator returns %r' % (fn.fn.name, dec), n)
+            wraps = any(ast.unparse(d_.func if isinstance(d_, ast.Call) else d_).split('.')[-1] == 'wraps'
+                        for d_ in dec.fn.decorator_list)
+            wa = dec.fn.args
+
+            def sides(a_, bound_):
+                pos_ = [x.arg for x in a_.posonlyargs] + [x.arg for x in a_.args]
+                sig_ = [(x.arg, 'POSITIONAL_ONLY') for x in a_.posonlyargs] + \
+                    [(x.arg, 'POSITIONAL_OR_KEYWORD') for x in a_.args]
+                if bound_ and sig_:
+                    sig_ = sig_[1:]
+                if a_.vararg is not None:
+                    sig_.append((a_.vararg.arg, 'VAR_POSITIONAL'))
+                sig_ += [(x.arg, 'KEYWORD_ONLY') for x in a_.kwonlyargs]
+                if a_.kwarg is not None:
+                    sig_.append((a_.kwarg.arg, 'VAR_KEYWORD'))
+                var_ = pos_ + [x.arg for x in a_.kwonlyargs] + ([a_.vararg.arg] if a_.vararg else []) + \
+                    ([a_.kwarg.arg] if a_.kwarg else [])
+                return sig_, pos_, var_
+            sig_w, pos_w, var_w = sides(wa, bound and bool(wa.posonlyargs or wa.args))
+            if bound and not (wa.posonlyargs or wa.args) and wa.vararg is None:
+                raise Unsupported('a bound method whose wrapper takes no positional argument', n)
+            sig_o = sides(a, bound)[0]
+            return (sig_o if wraps else sig_w), pos_w, var_w
     elif isinstance(fn, BoundOpaque):
         names = list(fn.obj.opaque_params.get(fn.name, ()))
         return [(x, 'POSITIONAL_OR_KEYWORD') for x in names], ['self'] + names, ['self'] + names
@@ -4857,9 +4888,18 @@ def _np_isclose(I, fr, args, kwargs, n):
             if not (isinstance(rtol, Rat) and rtol.is_const() or rtol.iszero()) or \
                     not (isinstance(atol, Rat) and atol.is_const() or atol.iszero()):
                 raise Unsupported('np.isclose with symbolic tolerances', n)
-            if not (b.is_const() or b.iszero()):
-                return False        # differing by a constant at symbolic magnitude: generic point
             val = lambda r: Fr(0) if r.iszero() else r.const_value()
+            if not (b.is_const() or b.iszero()):
+                # a constant difference at a magnitude that is not known: within atol it is close whatever the
+                # magnitude; beyond atol the answer is exact for rtol == 0 and depends on |b| otherwise
+                if abs(val(a - b)) <= val(atol):
+                    return True
+                if val(rtol) == 0:
+                    return False
+                if I.generic_point:
+                    return False
+                raise Unsupported('np.isclose: a difference of %s against rtol*|b| of unknown magnitude'
+                                  % (float(abs(val(a - b))),), n)
             return abs(val(a - b)) <= val(atol) + val(rtol) * abs(val(b))
     raise Unsupported('np.isclose of symbolic values', n)
 
